@@ -1199,7 +1199,7 @@ func (root *Root) AddEvent(id string, event interface{}) (cnt int, err error) {
 			if s.vars != nil {
 				sv = s.vars // the variables of the subscription request
 			}
-			result, ea2 := root.resolve(event, sv, s.field, s.field.ConType, MaxResolveDepth)
+			result, ea2 := root.resolve(event, sv, s.field, s.conType, MaxResolveDepth)
 			ea = append(ea, ea2...)
 			cnt++
 			if err = s.sub.Send(result); err != nil {
